@@ -179,6 +179,15 @@ def drive(ctx, mon, tier, only_case=None):
         r = rng.random()
         if r < 0.75:
             s = gen_ansi_input(rng, sz['maxlen'])
+            if rng.random() < 0.15:
+                # the same parameter strings used as *settings* (and parsed with add_erroneous=True) beforehand
+                with mon.quiet():
+                    for body in re.findall('\x1b\\[([0-9;]*)m', s)[:3]:
+                        try:
+                            L.parse_graphic_sequence(body, True)
+                            L.AnsiString('q', body)
+                        except Exception:
+                            pass
             cls = L.AnsiString if rng.random() < 0.6 else L.AnsiStr
             ex.run({'m': 'new', 'cls': cls.__name__, 'a': [s]})
             if rng.random() < 0.2:
